@@ -77,7 +77,7 @@ func (c *Ctx) Schema() *Schema {
 			}
 			if nf.Elem != nil {
 				if prev, ok := s.Keyword[kw]; ok && prev != nf.Elem {
-					s.Conflict = append(s.Conflict, fmt.Sprintf("keyword %q maps to %s and %s", kw, prev.Obj().Name(), nf.Elem.Obj().Name()))
+					s.Conflict = append(s.Conflict, fmt.Sprintf("keyword %q maps to %s and %s", kw, objName(prev.Obj()), objName(nf.Elem.Obj())))
 				} else if !ok {
 					s.Keyword[kw] = nf.Elem
 				}
@@ -165,7 +165,7 @@ func ruleSchemaMeta(c *Ctx) []Obligation {
 		obs = append(obs, ok(R, "keyword→type is a function", "-", fmt.Sprintf("%d keywords, each with one element type", len(s.Keyword))))
 	}
 	for _, nt := range s.Ordered {
-		name := nt.Named.Obj().Name()
+		name := objName(nt.Named.Obj())
 		if name == "meta" {
 			continue
 		}
@@ -179,7 +179,7 @@ func ruleSchemaMeta(c *Ctx) []Obligation {
 			{"Name", func(t types.Type) bool { b, ok := t.Underlying().(*types.Basic); return ok && b.Kind() == types.String }, "string"},
 			{"Statement", func(t types.Type) bool { p, ok := t.(*types.Pointer); return ok && namedOf(p.Elem()) == stmtT }, "*Statement"},
 			{"Parent", func(t types.Type) bool {
-				return namedOf(t) != nil && namedOf(t).Obj().Name() == "Node" && types.IsInterface(t)
+				return namedOf(t) != nil && objName(namedOf(t).Obj()) == "Node" && types.IsInterface(t)
 			}, "Node"},
 			{"Ext", func(t types.Type) bool {
 				sl, ok := t.Underlying().(*types.Slice)
@@ -281,7 +281,7 @@ func ruleSchemaIface(c *Ctx) []Obligation {
 		"Module": "Module serves module and submodule: Kind() is decided by BelongsTo (checked structurally below)",
 	}
 	for _, nt := range s.Ordered {
-		name := nt.Named.Obj().Name()
+		name := objName(nt.Named.Obj())
 		if name == "meta" {
 			continue
 		}
@@ -425,7 +425,7 @@ func ruleSchemaScope(c *Ctx) []Obligation {
 		{"identity", "Identities", "", "Identity", false},
 	}
 	for _, nt := range s.Ordered {
-		name := nt.Named.Obj().Name()
+		name := objName(nt.Named.Obj())
 		pos := c.Pos(nt.Named.Obj().Pos())
 		for _, sc := range scopes {
 			f := nt.field(sc.kw)
@@ -438,7 +438,7 @@ func ruleSchemaScope(c *Ctx) []Obligation {
 				obs = append(obs, bad(R, con, pos, "accessor exists but no field tagged "+sc.kw))
 				continue
 			}
-			if !f.Slice || f.Elem == nil || f.Elem.Obj().Name() != sc.elem {
+			if !f.Slice || f.Elem == nil || objName(f.Elem.Obj()) != sc.elem {
 				obs = append(obs, bad(R, con, pos, "field type is "+typeStr(f.Var.Type())))
 				continue
 			}
@@ -471,7 +471,7 @@ func ruleSchemaScope(c *Ctx) []Obligation {
 				continue
 			}
 			con := fmt.Sprintf("%s: %q field is named %s of type []*%s", name, kw.kw, kw.field, kw.elem)
-			if f.Var.Name() == kw.field && f.Slice && f.Elem != nil && f.Elem.Obj().Name() == kw.elem {
+			if f.Var.Name() == kw.field && f.Slice && f.Elem != nil && objName(f.Elem.Obj()) == kw.elem {
 				obs = append(obs, ok(R, con, pos, "matches FieldByName lookup"))
 			} else {
 				obs = append(obs, bad(R, con, pos, "FindGrouping's FieldByName lookup would miss it"))
@@ -487,7 +487,7 @@ func ruleSchemaReq(c *Ctx) []Obligation {
 	s := c.Schema()
 	byName := map[string]*NodeType{}
 	for _, nt := range s.Ordered {
-		byName[nt.Named.Obj().Name()] = nt
+		byName[objName(nt.Named.Obj())] = nt
 	}
 	for _, r := range specRequired {
 		con := fmt.Sprintf("%s.%q carries %s", r.Type, r.Keyword, r.Attr)
@@ -517,7 +517,7 @@ func ruleSchemaCardSpec(c *Ctx) []Obligation {
 	var obs []Obligation
 	s := c.Schema()
 	for _, nt := range s.Ordered {
-		name := nt.Named.Obj().Name()
+		name := objName(nt.Named.Obj())
 		if name == "meta" || name == "Value" {
 			continue
 		}
